@@ -23,7 +23,7 @@ RULE = ('cases: seeded worlds (SpaceWorld continuous, DiscreteWorld/GridWorld/Li
         'max(leeway, axis leeway) (seam-aware distance on positive-extent axes of wrapping worlds), in joining order. Non-trivial '
         'query: >=1 agent exactly on a face and the answer is neither empty nor everybody; distinct by (world, population, query).')
 ASSUMPTIONS = ['coordinates and leeways are multiples of 1/8 (exact float arithmetic)', 'F5 (wrap seam ignored) is a known finding, not repaired']
-FLOORS = {'quick': {'answers_edited_by_the_caller': 3308, 'namesakes_in_another_world': 3222, 'queries_with_numpy_scalars': 1226, 'queries': 12000, 'queries_nonwrap': 6090, 'queries_wrap': 6135, 'on_face_agents': 5000, 'nonempty_answers': 4811,
+FLOORS = {'quick': {'moves_refused_for_a_wrong_typed_coordinate': 1009, 'answers_edited_by_the_caller': 3308, 'namesakes_in_another_world': 3222, 'queries_with_numpy_scalars': 1226, 'queries': 12000, 'queries_nonwrap': 6090, 'queries_wrap': 6135, 'on_face_agents': 5000, 'nonempty_answers': 4811,
                     'empty_answers': 2000, 'negative_leeway_queries': 1000, 'axis_leeway_larger': 3000, 'general_leeway_larger': 3000,
                     'query_outside_world': 2000, 'coincident_pairs': 500, 'big_worlds': 8, 'big_queries': 150, 'agents_with_position_subclass_component': 1000, 'second_world_on_same_model': 300, 'reach:Environments.SpaceWorld.get_agents_at': 12000},
           'thorough': {'queries': 1000000, 'on_face_agents': 400000}}
@@ -124,6 +124,19 @@ def case_world(ctx, case):
                 order.append(a)
             elif a in order and x < 0.2:
                 env.move(a, *[rng.randint(-3, 3) if grid else rng.randint(-24, 24) / 8 for _ in range(3)])
+            elif a in order and x < 0.26 and sum(1 for e in ext if e and e > 0) >= 2:
+                # an absolute move that the world refuses because a LATER coordinate has the wrong type: the agent stays where it is
+                from vlib import faults
+                kbad = rng.choice([k for k in range(1, 3) if ext[k] and ext[k] > 0])
+                args = [rnd_coord(k) for k in range(3)]
+                args[kbad] = rng.choice([None, 'north'])
+                before_ = a.components[P].xyz()
+                _, err = faults.attempt(env.move_to, a, *args)
+                ctx.count('moves_refused_for_a_wrong_typed_coordinate')
+                if err is None or a.components[P].xyz() != before_:
+                    raise CaseViolation(f'move_to{tuple(args)} (wrong-typed coordinate) ' + ('was accepted' if err is None else
+                                        f'was refused ({type(err).__name__}) but moved the agent from {before_} to {a.components[P].xyz()}'),
+                                        world=(kind, ext, wrap))
         # query
         q = []
         for k in range(3):
